@@ -938,3 +938,96 @@ pub fn renumber_all(u: &Universe, problems: &[Prob], perms: &[Vec<u32>; 5]) -> (
     }
     (out_u.unwrap_or_else(|| u.clone()), out_p)
 }
+
+/// `union-abandon`: a randomised neighbourhood of a situation that conflict-clause MINIMISATION
+/// has to get right. `p=1` requires the union `c=1 | d=1`; the first member is chosen by a decision
+/// and abandoned later while the other member becomes true at a conflict level; `r=2` (preferred)
+/// forces `d=1` and rules out `x=1`, `x=2` rules out `e=2`, `s=2` rules out `e=3`, `d=1` rules out
+/// `e=1`, so the search runs through several conflicts whose analysis visits the parent of the
+/// union, the decided candidate and literals of the decided candidate's own requirement; the
+/// dependencies of `r=1` (which rules out `s=2`) arrive late (not hinted) and restart the run.
+/// Nothing that only the abandoned `c=1` needed (an `e`) may be left in the answer.
+pub fn union_abandon(r: &mut Rng) -> (Universe, Prob) {
+    let mut u = Universe::default();
+    let keep = |r: &mut Rng| r.chance(9, 10);
+    let s2 = u.solv("s", 2);
+    let s1 = u.solv("s", 1);
+    let p1 = u.solv("p", 1);
+    let c1 = u.solv("c", 1);
+    let d1 = u.solv("d", 1);
+    let r2 = u.solv("r", 2);
+    let r1 = u.solv("r", 1);
+    let x2 = u.solv("x", 2);
+    let _x1 = u.solv("x", 1);
+    let e3 = u.solv("e", 3);
+    let _e2 = u.solv("e", 2);
+    let e1 = u.solv("e", 1);
+    if r.chance(1, 4) {
+        u.solv("e", 4);
+    }
+    if r.chance(1, 5) {
+        u.solv("x", 3);
+    }
+    if keep(r) {
+        let v = u.vs("e", 1, 3);
+        u.add_con(s2, v);
+    }
+    if keep(r) {
+        let v = u.vs("c", 7, 8);
+        u.add_con(s1, v);
+    }
+    let vc = u.vs("c", 1, 2);
+    let vd = u.vs("d", 1, 2);
+    let un = if r.chance(5, 6) { u.union(vec![vc, vd]) } else { u.union(vec![vd, vc]) };
+    let vr = u.vs("r", 1, 3);
+    let vx = u.vs("x", 1, 3);
+    let mut preqs = vec![Req::Union(un), Req::Single(vr), Req::Single(vx)];
+    if r.chance(1, 4) {
+        r.shuffle(&mut preqs);
+    }
+    for q in preqs {
+        u.add_req(p1, q);
+    }
+    let ve = u.vs("e", 1, 5);
+    u.add_req(c1, Req::Single(ve));
+    if keep(r) {
+        let v = u.vs("e", 2, 5);
+        u.add_con(d1, v);
+    }
+    if keep(r) {
+        u.add_req(r2, Req::Single(vd));
+    }
+    if keep(r) {
+        let v = u.vs("x", 2, 4);
+        u.add_con(r2, v);
+    }
+    if keep(r) {
+        let v = u.vs("s", 1, 2);
+        u.add_con(r1, v);
+    }
+    if keep(r) {
+        let v = u.vs_ext("e", "1|3+", vec![e1, e3]);
+        u.add_con(x2, v);
+    }
+    let rs = u.vs("s", 1, 3);
+    let rp = u.vs("p", 1, 2);
+    u.finalize();
+    // the "1|3+" set also matches versions above 3 if there are any
+    let extra: Vec<u32> = u.solvs.iter().enumerate().filter(|(_, s)| u.pkgs[s.name as usize].name == "e" && s.ver > 3).map(|(i, _)| i as u32).collect();
+    if let Some(v) = u.vsets.iter_mut().find(|v| v.label == "1|3+") {
+        v.matching.extend(extra);
+    }
+    // everything is available up-front except (mostly) r=1
+    for i in 0..u.pkgs.len() {
+        let name = u.pkgs[i].name.clone();
+        u.pkgs[i].hint = if name == "r" {
+            if r.chance(5, 6) { Hint::Some(vec![r2]) } else { Hint::All }
+        } else if r.chance(9, 10) {
+            Hint::All
+        } else {
+            Hint::None
+        };
+    }
+    let reqs = if r.chance(3, 4) { vec![Req::Single(rs), Req::Single(rp)] } else { vec![Req::Single(rp), Req::Single(rs)] };
+    (u, Prob { reqs, cons: vec![], soft: vec![] })
+}
